@@ -4,6 +4,7 @@ package main
 
 import (
 	"fmt"
+	"os"
 	"go/ast"
 	"go/types"
 	"sort"
@@ -112,6 +113,9 @@ func (g *gen) execCall(instr ssa.Instruction, c *ssa.CallCommon, v ssa.Value, st
 	}
 	// contracts
 	if callee != nil {
+		if os.Getenv("YQV_DEBUG_CALLS") != "" {
+			fmt.Fprintf(os.Stderr, "call %s rel=%q\n", callee.String(), g.P.relName(callee))
+		}
 		if con := g.P.contractFor(callee); con != nil {
 			res := g.contractCall(instr, callee, con, args, bindings, st)
 			g.setResults(v, res)
@@ -281,6 +285,24 @@ func (g *gen) pureExternal(st *state, callee *ssa.Function, sig *types.Signature
 
 // afterCall: ghost bookkeeping common to all calls (error-propagation flag).
 func (g *gen) afterCall(instr ssa.Instruction, sig *types.Signature, v ssa.Value, st *state) {
+	if g.con != nil && len(g.con.Always) > 0 && g.opts.functional {
+		e := g.entryEnv(g.entry)
+		ce := e.child()
+		ce.st = st
+		ce.old = e
+		ce.lookup = func(name string) (sval, bool) { return g.lookupCommon(ce, name) }
+		what := "after " + g.exprText(v)
+		if v == nil {
+			what = "after a deferred call"
+		}
+		for _, a := range g.con.Always {
+			lbl := a.Label
+			if lbl == "" {
+				lbl = a.Text
+			}
+			g.oblige("always", lbl+" "+what, instr.Pos(), g.specBool(ce, a.Expr), a.Props)
+		}
+	}
 	if !g.opts.errprop || v == nil {
 		return
 	}
@@ -288,11 +310,37 @@ func (g *gen) afterCall(instr ssa.Instruction, sig *types.Signature, v ssa.Value
 	if n == 0 || types.TypeString(sig.Results().At(n-1).Type(), nil) != "error" {
 		return
 	}
+	if c, ok := instr.(*ssa.Call); ok {
+		if callee := c.Call.StaticCallee(); callee != nil {
+			if nf := g.P.errHandled["*"]; nf != nil && nf[callee.String()] != "" {
+				return
+			}
+			if h := g.P.errHandled[g.vc.Func]; h != nil && h[callee.Name()] != "" {
+				g.P.usedAssumption("error of " + callee.Name() + " is deliberately recovered from in " + g.vc.Func + ": " + h[callee.Name()])
+				return
+			}
+		}
+	}
 	var errT string
 	if n == 1 {
 		errT = g.vals[v]
+		if !plainErrorUse(v, 0) {
+			return
+		}
 	} else {
 		errT = g.tuples[v][n-1]
+		// find the Extract of the error component
+		plain := true
+		if refs := v.Referrers(); refs != nil {
+			for _, r := range *refs {
+				if ex, ok := r.(*ssa.Extract); ok && ex.Index == n-1 {
+					plain = plainErrorUse(ex, 0)
+				}
+			}
+		}
+		if !plain {
+			return
+		}
 	}
 	cur := g.heapVar(st, "GHOST.err", "Bool")
 	g.heapSorts["GHOST.err"] = "Bool"
@@ -456,16 +504,52 @@ func (g *gen) contractCall(instr ssa.Instruction, callee *ssa.Function, con *Con
 		names = append(names, p.Name())
 		tys = append(tys, p.Type())
 	}
+	if len(callee.Params) == 0 && (callee.Signature.Params().Len() > 0 || callee.Signature.Recv() != nil) {
+		// an external function (no body): names and types from the signature
+		if r := callee.Signature.Recv(); r != nil {
+			names = append(names, "recv")
+			tys = append(tys, r.Type())
+		}
+		for i := 0; i < callee.Signature.Params().Len(); i++ {
+			names = append(names, callee.Signature.Params().At(i).Name())
+			tys = append(tys, callee.Signature.Params().At(i).Type())
+		}
+	}
+	// a closure: its captured variables are visible to the contract under their own names, and the ones it may
+	// write are unknown after the call (constrained only by the postconditions)
+	g.pendingBindings = nil
+	if len(bindings) == len(callee.FreeVars) {
+		for i, fv := range callee.FreeVars {
+			g.pendingBindings = append(g.pendingBindings, closureBinding{name: fv.Name(), val: bindings[i], mayWrite: g.closureMayWrite(callee, i)})
+		}
+	}
 	return g.contractCallGeneric(instr, con, callee.Signature, args, tys, names, st, g.P.relName(callee))
 }
 
-func (g *gen) contractCallGeneric(instr ssa.Instruction, con *Contract, sig *types.Signature, args []string, tys []types.Type, names []string, st *state, cname string) []string {
+type closureBinding struct {
+	name     string
+	val      ssa.Value
+	mayWrite bool
+}
 
+func (g *gen) contractCallGeneric(instr ssa.Instruction, con *Contract, sig *types.Signature, args []string, tys []types.Type, names []string, st *state, cname string) []string {
+	binds := g.pendingBindings
+	g.pendingBindings = nil
 	mkEnv := func(s *state) *env {
 		e := &env{g: g, st: s, names: map[string]sval{}, lets: con.Lets}
 		for i, n := range names {
 			if i < len(args) {
 				e.names[n] = g.goVal(args[i], tys[i])
+			}
+		}
+		for _, b := range binds {
+			if l, ok := g.locs[b.val]; ok {
+				e.names[b.name] = g.goVal(g.load(s, l), l.vtype)
+			} else if a, ok := b.val.(*ssa.Alloc); ok && a.Heap {
+				et := deref(a.Type())
+				if _, isS := et.Underlying().(*types.Struct); isS {
+					e.names[b.name] = g.goVal(g.loadStruct(s, g.vals[a], et), et)
+				}
 			}
 		}
 		e.lookup = func(name string) (sval, bool) { return g.lookupCommon(e, name) }
@@ -550,6 +634,20 @@ func (g *gen) contractCallGeneric(instr ssa.Instruction, con *Contract, sig *typ
 			if g.escaped[a] {
 				st.cells[a] = g.newConst("cell."+sanitize(a.Comment), g.sorts.sortOf(deref(a.Type())))
 			}
+		}
+	}
+	for _, m := range mods {
+		if strings.HasPrefix(m.heap, "GHOST.") {
+			g.heapSorts[m.heap] = fileGhosts[strings.TrimPrefix(m.heap, "GHOST.")]
+			st.heap[m.heap] = g.newConst(m.heap+"@", g.heapSorts[m.heap])
+		}
+	}
+	for _, b := range binds {
+		if !b.mayWrite {
+			continue
+		}
+		if l, ok := g.locs[b.val]; ok {
+			g.store(st, l, g.newConst("captured."+b.name, g.sorts.sortOf(l.vtype)))
 		}
 	}
 	// 4. results and postconditions
@@ -646,6 +744,9 @@ func (g *gen) modClauseOf(m *Clause, e *env) []modClause {
 		et := deref(v.gt)
 		return []modClause{{heap: cellHeap(et), member: func(r string) string { return sEq(r, v.t) }, text: m.Text}}
 	case *ast.Ident:
+		if _, ok := fileGhosts[n.Name]; ok {
+			return []modClause{{heap: "GHOST." + n.Name, scalar: true, member: func(string) string { return "true" }, text: m.Text}}
+		}
 		// a package-level variable
 		if gl, ok := g.fn.Pkg.Members[n.Name].(*ssa.Global); ok {
 			return []modClause{{heap: "G." + sanitize(gl.Pkg.Pkg.Name()+"."+gl.Name()), scalar: true, member: func(string) string { return "true" }, text: m.Text}}
@@ -1183,4 +1284,54 @@ func fieldOrigin(v ssa.Value) string {
 		}
 	}
 	return ""
+}
+
+// plainErrorUse: the error value is only ever tested against nil (in branch conditions) or returned — it is
+// not inspected (errors.Is/As, comparison with a sentinel), wrapped, stored or otherwise handled. Only such
+// errors are subject to the propagation obligation: a deliberately handled error (io.EOF, "try the other
+// format") is not a swallowed one.
+func plainErrorUse(v ssa.Value, depth int) bool {
+	refs := v.Referrers()
+	if refs == nil || depth > 4 {
+		return depth <= 4
+	}
+	for _, r := range *refs {
+		switch u := r.(type) {
+		case *ssa.DebugRef, *ssa.Return:
+		case *ssa.BinOp:
+			other := u.Y
+			if other == v {
+				other = u.X
+			}
+			c, isConst := other.(*ssa.Const)
+			if !isConst || c.Value != nil {
+				return false // compared with a sentinel
+			}
+			// the comparison must only steer control flow
+			if br := u.Referrers(); br != nil {
+				for _, x := range *br {
+					switch x.(type) {
+					case *ssa.If, *ssa.DebugRef:
+					default:
+						return false
+					}
+				}
+			}
+		case *ssa.Phi:
+			if !plainErrorUse(u, depth+1) {
+				return false
+			}
+		case *ssa.Store:
+			// stored into a named result / local error variable: still plain if that variable is only returned or tested
+			if u.Val != v {
+				return false
+			}
+			if _, ok := u.Addr.(*ssa.Alloc); !ok {
+				return false
+			}
+		default:
+			return false
+		}
+	}
+	return true
 }
